@@ -201,6 +201,71 @@ func (r *rewriter) isContext(e ast.Expr) bool {
 	return o != nil && o.Pkg() != nil && o.Pkg().Path() == "context" && o.Name() == "Context"
 }
 
+// orderedMap reports whether e is a map whose key type can be sorted (strings, integers).
+func (r *rewriter) orderedMap(e ast.Expr) bool {
+	t := r.info.TypeOf(e)
+	if t == nil {
+		return false
+	}
+	m, ok := t.Underlying().(*types.Map)
+	if !ok {
+		return false
+	}
+	b, ok := m.Key().Underlying().(*types.Basic)
+	if !ok {
+		return false
+	}
+	return b.Info()&(types.IsString|types.IsInteger) != 0
+}
+
+// for k, v := range m { body }
+//   =>  { _m := m; for _, k := range SortedKeys(_m) { v, _ok := _m[k]; if !_ok { continue }; body } }
+// Go leaves the iteration order of a map unspecified; fixing one legal order makes executions
+// reproducible (entries deleted before they are reached are skipped, as the spec requires).
+func (r *rewriter) rewriteRangeMap(n *ast.RangeStmt) ast.Stmt {
+	mv := r.fresh("m")
+	okv := r.fresh("ok")
+	var keyExpr ast.Expr
+	var pre []ast.Stmt
+	loopKey := ast.Expr(r.fresh("k"))
+	keyIsBlank := n.Key == nil
+	if kid, ok := n.Key.(*ast.Ident); ok && kid.Name == "_" {
+		keyIsBlank = true
+	}
+	tok := token.DEFINE
+	if !keyIsBlank {
+		if n.Tok == token.DEFINE {
+			loopKey = n.Key
+		} else {
+			pre = append(pre, &ast.AssignStmt{Lhs: []ast.Expr{n.Key}, Tok: token.ASSIGN, Rhs: []ast.Expr{loopKey}})
+		}
+	}
+	keyExpr = loopKey
+	valIsBlank := n.Value == nil
+	if vid, ok := n.Value.(*ast.Ident); ok && vid.Name == "_" {
+		valIsBlank = true
+	}
+	var body []ast.Stmt
+	idx := &ast.IndexExpr{X: mv, Index: keyExpr}
+	if valIsBlank {
+		body = append(body, &ast.AssignStmt{Lhs: []ast.Expr{id("_"), okv}, Tok: token.DEFINE, Rhs: []ast.Expr{idx}})
+	} else if n.Tok == token.DEFINE {
+		body = append(body, &ast.AssignStmt{Lhs: []ast.Expr{n.Value, okv}, Tok: token.DEFINE, Rhs: []ast.Expr{idx}})
+	} else {
+		tmp := r.fresh("mv")
+		body = append(body, &ast.AssignStmt{Lhs: []ast.Expr{tmp, okv}, Tok: token.DEFINE, Rhs: []ast.Expr{idx}})
+		pre = append(pre, &ast.AssignStmt{Lhs: []ast.Expr{n.Value}, Tok: token.ASSIGN, Rhs: []ast.Expr{tmp}})
+	}
+	body = append(body, &ast.IfStmt{Cond: &ast.UnaryExpr{Op: token.NOT, X: okv}, Body: &ast.BlockStmt{List: []ast.Stmt{&ast.BranchStmt{Tok: token.CONTINUE}}}})
+	body = append(body, pre...)
+	body = append(body, n.Body.List...)
+	loop := &ast.RangeStmt{Key: id("_"), Value: loopKey, Tok: tok, X: call(sched("SortedKeys"), mv), Body: &ast.BlockStmt{List: body}}
+	return &ast.BlockStmt{List: []ast.Stmt{
+		&ast.AssignStmt{Lhs: []ast.Expr{mv}, Tok: token.DEFINE, Rhs: []ast.Expr{n.X}},
+		loop,
+	}}
+}
+
 func (r *rewriter) chanOf(e ast.Expr) *types.Chan {
 	t := r.info.TypeOf(e)
 	if t == nil {
@@ -323,6 +388,15 @@ func (r *rewriter) run() bool {
 			r.mark()
 			st.Gos++
 		case *ast.RangeStmt:
+			if mt := r.orderedMap(n.X); mt {
+				if _, labeled := c.Parent().(*ast.LabeledStmt); labeled {
+					broken("%s: labeled range over map", r.pos(n))
+				}
+				c.Replace(r.rewriteRangeMap(n))
+				r.mark()
+				st.MapRanges++
+				return true
+			}
 			if r.isChan(n.X) {
 				if _, labeled := c.Parent().(*ast.LabeledStmt); labeled {
 					broken("%s: labeled range over channel", r.pos(n))
